@@ -445,7 +445,24 @@ def multidim_applies(rnd, tier):
                     progs.append({'templates': [t], 'steps': steps})
     if tier == 'quick':
         progs = rnd.sample(progs, min(len(progs), 130))
-    return progs
+    # callables that return a scalar (np.max, np.sum) on two dimensions of
+    # one variable, alone and next to a reducer name or an array-valued
+    # callable (unmasked templates: a callable sees the underlying data)
+    more = []
+    for t in ('T1', 'T3', 'T7', 'T9'):
+        names = dims.get(t, ['t', 'lev'])
+        for ds in itertools.combinations(names, 2):
+            for f1, f2 in (('npmax', 'npmax'), ('npsum', 'npmax'),
+                           ('npmax', 'rev'), ('sub2', 'npsum')):
+                for order in (ds, ds[::-1]):
+                    fs = [{'d': order[0], 'kind': 'callable', 'f': f1},
+                          {'d': order[1], 'kind': 'callable', 'f': f2}]
+                    more.append({'templates': [t], 'steps': [{
+                        'act': 'apply', 'src': 1, 'others': [],
+                        'args': {'funcs': fs}}]})
+    if tier == 'quick':
+        more = rnd.sample(more, min(len(more), 60))
+    return progs + more
 
 
 def run(prop, tier, extra=None):
